@@ -211,6 +211,10 @@ def _rng(t):
         return r if r else (0, BIG)
     if k == 'discr':
         return DISCR_RANGE.get(t[1], (0, BIG))
+    if k == 'call' and t[1] == 'bitlen':
+        lo, hi = rng(t[2])
+        if lo >= 0 and hi < BIG: return (lo.bit_length(), hi.bit_length())
+        return (0, 64)
     if k == 'payload' or k == 'call':
         return CALL_RANGE.get(t, (0, BIG))
     return (-BIG, BIG)
